@@ -149,6 +149,7 @@ func verifEncode(v any, n int) []byte
 func verifEventCount(kind string) int
 func verifEvent(kind string)
 func verifQuiesce()
+func verifStopPath()
 func verifMapOrders(all bool)
 func verifFreezeClock(on bool)
 func verifLimiterAlwaysGrants()
